@@ -1518,6 +1518,31 @@ def explore(ctx, b, w, table, required, n_extra):
                 finally:
                     uo = user_by_name(b, 'vown'); uo.addCapability('owner'); ircdb.users.setUser(uo)
                     stop('vtrep4')
+            # (iii) the event goes through Scheduler.pickle (`reload Scheduler`, i.e. what a restart does) before it fires:
+            # the restored message must still be a message to #c, so the channel's anti-capability still applies
+            if ('Owner', ('reload',)) in loaded:
+                pr = ROLES['plain']
+                for with_anti in (False, True):
+                    uo = user_by_name(b, 'vreg'); uo.addCapability('scheduler.add'); ircdb.users.setUser(uo)
+                    if with_anti:
+                        co = ircdb.channels.getChannel(CHAN); co.addCapability('-vtfree'); ircdb.channels.setChannel(CHAN, co)
+                    try:
+                        Obs.execute = None
+                        deliver(b, pr, CHAN, '@scheduler add 30 vtfree')
+                        with contextlib.redirect_stdout(io.StringIO()):
+                            rl = classify(deliver(b, ROLES['owner'], NICK, 'reload Scheduler'))
+                        Clock.offset += 60
+                        rd_case('scheduled-after-reload' + ('-channel-anti' if with_anti else ''), fire, pr, CHAN, 'scheduled', ('', ''), (pr, CHAN),
+                                'deny' if with_anti else 'allow', tpath=('vtfree',),
+                                note='plain user schedules vtfree from %s, the owner reloads Scheduler (%s) so the event is restored from Scheduler.pickle, then it fires%s'
+                                     % (CHAN, rl[0], '; the channel holds -vtfree' if with_anti else ''))
+                    finally:
+                        uo = user_by_name(b, 'vreg'); uo.removeCapability('scheduler.add'); ircdb.users.setUser(uo)
+                        if with_anti:
+                            co = ircdb.channels.getChannel(CHAN); co.removeCapability('-vtfree'); ircdb.channels.setChannel(CHAN, co)
+                        sched_cb = [cb for cb in irc.callbacks if cb.name() == 'Scheduler'][0]
+                        for k2 in list(sched_cb.events):
+                            stop(k2)
         # ---- Admin.acmd: assigns to msg.args[0] (a tuple) -> TypeError before anything is dispatched ----
         if 'Admin' in have:
             botpfx = irc.prefix if getattr(irc, 'prefix', None) and '!' in irc.prefix else '%s!bot@bot.host' % NICK
